@@ -45,7 +45,7 @@ const verifScanMaxL = 3
 // panicking; tokens come in source order without overlap, carry exactly the input bytes of
 // their range, skip only blanks, end with EOF, and every range lies inside the input.
 func H_c17_json_scan() {
-	L := nondet_choice("L", verif_bound("json-scan-maxL", verifScanMaxL, verifScanMaxL)+1) // 4 bytes: one of 4 slices did not finish in 2 h
+	L := nondet_choice("L", verif_bound("json-scan-maxL", verifScanMaxL, 4)+1) // 4 bytes: the slowest of the 4 slices takes about 75 minutes
 	src := nondet_bytes("src", L)
 	toks := scan(src, pos{Filename: "f", Pos: hclPos1()})
 	verif_assert(len(toks) >= 1, "at least the EOF token")
